@@ -25,14 +25,14 @@ func (t *bodyTr) assignTo(lhs ast.Expr, v int, rel bool, define bool) {
 		if (!rel || v < 0) && x >= 0 && isObjLike(t.typeOf(lhs)) {
 			// an object that is not followed (an immutable one somebody else built) is stored INTO x: nothing
 			// escapes, but x is modified - which counts against the immutability of x's type
-			t.emit(&node{op: "store", r: x, v: t.objTmpMake(lhs), pos: -1, why: "ret", line: ln})
+			t.store(x, t.objTmpMake(lhs), lhs)
 			return
 		}
 		if !rel || v < 0 {
 			return
 		}
 		if x >= 0 {
-			t.emit(&node{op: "store", r: x, v: v, pos: -1, why: "ret", line: ln})
+			t.store(x, v, lhs)
 		} else {
 			esc()
 		}
@@ -130,6 +130,14 @@ func (t *bodyTr) assignTo(lhs ast.Expr, v int, rel bool, define bool) {
 			}
 		}
 	case *ast.StarExpr:
+		if isBytePtr(t.typeOf(l.X)) { // *q = b with q a *byte
+			x := t.eval(l.X)
+			if x < 0 {
+				x = t.tmpOpaque(lhs)
+			}
+			t.emit(&node{op: "set", v: x, pos: -1, why: "mut", line: ln})
+			return
+		}
 		if isByteElem(t.typeOf(lhs)) && kindOf(t.typeOf(lhs)) == kSlice {
 			t.derefAssign = true
 		}
@@ -169,10 +177,6 @@ func (t *bodyTr) assignObjVar(o types.Object, v int, rel bool, at ast.Node) {
 	}
 	if !rel || v < 0 {
 		v = t.objTmpOpaque(at)
-	}
-	if t.singleton(o) {
-		// no other variable can denote this object: the register takes over what v shows
-		t.emit(&node{op: "make", r: R, pos: -1, line: t.line(at)})
 	}
 	// binding a variable is not a store into the object: the class may from now on ALSO denote v
 	t.bind(R, v, at)
@@ -240,9 +244,7 @@ func (t *bodyTr) stmt(s ast.Stmt) {
 				for _, nm := range vs.Names {
 					if o := t.p.info.Defs[nm]; o != nil && kindOf(o.Type()) != kNone {
 						if isObjLike(o.Type()) {
-							if t.singleton(o) {
-								t.emit(&node{op: "make", r: t.classReg(o), pos: -1, line: t.line(nm)})
-							}
+							t.classReg(o)
 							continue
 						}
 						t.emit(&node{op: "make", r: t.reg(o), pos: -1, line: t.line(nm)})
@@ -260,6 +262,10 @@ func (t *bodyTr) stmt(s ast.Stmt) {
 	case *ast.AssignStmt:
 		t.assign(s)
 	case *ast.IncDecStmt:
+		if st, ok := unparen(s.X).(*ast.StarExpr); ok && isBytePtr(t.typeOf(st.X)) {
+			t.assignTo(st, -1, false, false)
+			return
+		}
 		if ix, ok := unparen(s.X).(*ast.IndexExpr); ok && isByteElem(t.typeOf(ix.X)) {
 			t.walk(ix.Index)
 			x := t.eval(ix.X)
@@ -471,7 +477,9 @@ func (t *bodyTr) assign(s *ast.AssignStmt) {
 		for _, r := range s.Rhs {
 			t.walk(r)
 		}
-		if ix, ok := unparen(s.Lhs[0]).(*ast.IndexExpr); ok && isByteElem(t.typeOf(ix.X)) {
+		if st, ok := unparen(s.Lhs[0]).(*ast.StarExpr); ok && isBytePtr(t.typeOf(st.X)) {
+			t.assignTo(st, -1, false, false)
+		} else if ix, ok := unparen(s.Lhs[0]).(*ast.IndexExpr); ok && isByteElem(t.typeOf(ix.X)) {
 			t.walk(ix.Index)
 			x := t.eval(ix.X)
 			if x < 0 {
